@@ -634,7 +634,7 @@ def evidence(tier, seed, total):
     return {
         'level': LEVEL,
         'coverage': {
-            'rule': 'Each run: a LocalScheduleObject (Unsigned or Real values) inside an application with a LocalDeviceObject whose clock is the virtual clock, optional CalendarObject '
+            'rule': '[additions: calendars may be empty; a valid configuration that the object declares faulty is a violation; runs end before 2155-01-01, the last BACnet date being 2154-12-31] Each run: a LocalScheduleObject (Unsigned or Real values) inside an application with a LocalDeviceObject whose clock is the virtual clock, optional CalendarObject '
                     '(calendar-reference periods) and target object; seeded configuration (effective period open-ended / entered / left / both during the run; 0-4 weekly entries per day; '
                     '0-4 exceptions with distinct priorities, date / date-range / week-n-day / calendar-reference periods incl. odd/even month, last/odd/even day, week-of-month and open '
                     'ranges, 0-4 ascending time-values each incl. Null) and a seeded start instant in 1970-2154 (60% in 1990-2099) biased to month ends, leap days, the non-leap century February of 2100 and year ends; virtual time runs 3-40 days with '
